@@ -349,6 +349,20 @@ func init() {
 				w := mutateIntColl(r, pos)
 				return before, fmt.Sprint(a.AsArray(), b.AsArray()), w
 			}},
+			aliasEntry{"Set." + op + "(s, s)/mutate-result", func(size, pos int) (string, string, bool) {
+				a := col.Set[int](n).MakeFromArray(intsN(size))
+				r := apply(a, a)
+				before := fmt.Sprint(a.AsArray())
+				w := mutateIntColl(r, pos)
+				return before, fmt.Sprint(a.AsArray()), w
+			}},
+			aliasEntry{"Set." + op + "(s, s)/mutate-operand", func(size, pos int) (string, string, bool) {
+				a := col.Set[int](n).MakeFromArray(intsN(size))
+				r := apply(a, a)
+				before := fmt.Sprint(r.AsArray())
+				w := mutateIntColl(a, pos)
+				return before, fmt.Sprint(r.AsArray()), w
+			}},
 			aliasEntry{"Set." + op + "/mutate-operand", func(size, pos int) (string, string, bool) {
 				S := col.Set[int](n)
 				a, b := S.MakeFromArray(intsN(size)), S.MakeFromArray(intsN(size+1)[1:])
@@ -515,6 +529,24 @@ func init() {
 		)
 	}
 	aliasEntries = append(aliasEntries,
+		aliasEntry{"Catalog.Merge(c, c)/mutate-result", func(size, pos int) (string, string, bool) {
+			C := col.Catalog[int, int](n)
+			a := C.MakeFromMap(mapN(size))
+			r := C.Merge(a, a)
+			before := showAssocs(a.AsArray())
+			r.SetValue(pos+1, -1)
+			r.SetValue(98, 1)
+			r.RemoveAll()
+			return before, showAssocs(a.AsArray()), true
+		}},
+		aliasEntry{"List.Concatenate(l, l)/mutate-result", func(size, pos int) (string, string, bool) {
+			L := col.List[int](n)
+			a := L.MakeFromArray(intsN(size))
+			r := L.Concatenate(a, a)
+			before := fmt.Sprint(a.AsArray())
+			w := mutateIntColl(r, pos)
+			return before, fmt.Sprint(a.AsArray()), w
+		}},
 		aliasEntry{"Catalog.Merge/mutate-result", func(size, pos int) (string, string, bool) {
 			C := col.Catalog[int, int](n)
 			a, b := C.MakeFromMap(mapN(size)), C.MakeFromMap(mapN(size+1))
